@@ -93,6 +93,26 @@ func Eligible(f *ssa.Function) bool {
 	return true
 }
 
+// loopHelperOf: helperOf, or - for the rules that look for a loop in a helper - the instance of an unexported generic
+// function of the module the instruction calls.
+func loopHelperOf(i ssa.Instruction) *ssa.Function {
+	if h := helperOf(i); h != nil {
+		return h
+	}
+	cl, ok := i.(*ssa.Call)
+	if !ok {
+		return nil
+	}
+	f := cl.Call.StaticCallee()
+	if f == nil || len(f.Blocks) == 0 || !strings.HasPrefix(f.Synthetic, "instance of ") || curProg == nil || !curProg.isRootFn(f) || f.Signature.Recv() != nil {
+		return nil
+	}
+	if r := []rune(f.Name()); len(r) == 0 || unicode.IsUpper(r[0]) {
+		return nil
+	}
+	return f
+}
+
 func closureOnlyCalled(f *ssa.Function) bool {
 	par := f.Parent()
 	ok := true
